@@ -20,7 +20,7 @@ RULE = ("(A) pure helpers eval_on_knots / bspline_derivative / get_greville_poin
         "point.  (C) bspline variables under MultipleShooting / DirectCollocation: samples on control, refined integrator "
         "and root grids must lie in the spline space of the declared order on the control-grid knots and agree across "
         "grids.  (D) on convex chain problems SplineMethod and MultipleShooting (rk) are solved with ipopt and must agree "
-        "on the optimal cost and trajectories.  non-trivial = at least one spline evaluation compared with non-zero "
+        "on the optimal cost and trajectories.  (E) SplineMethod with grid='inf' constraints on chain states, bspline variables and der() of them (one- and two-sided, with constant offsets): the NLP is linear, so linear programmes over all its rows give the extreme values the refined sample of the constrained expression can take; a value beyond the declared bound witnesses rows that do not impose the constraint.  non-trivial = at least one spline evaluation compared with non-zero "
         "coefficients; distinct = (part, degree/order, N, knot kind, refine, chain layout).")
 ASSUMPTIONS = ["scipy.interpolate.BSpline on clamped knot vectors is the specification of a B-spline",
                "networkx (optional dependency of SplineMethod) is taken from the offline wheelhouse"]
@@ -81,6 +81,31 @@ def gen_cases(rng, tier):
                       "grid": ocpgen.gen_grid(rng, ["uniform", "geometric", "function"], 3),
                       "t0": ocpgen.rnd(rng, -1, 1, 2), "T": ocpgen.rnd(rng, 0.4, 3, 2), "refine": rng.choice([2, 3, 5]),
                       "param": rng.random() < 0.3, "seed": rng.getrandbits(32)})
+    ne = 30 if tier == "quick" else 400
+    for i in range(ne):
+        cons = []
+        L = rng.choice([1, 2, 3])
+        # rockit rejects (assertion) inf constraints on states and on bspline signals in one stage, and on two
+        # different signals: one kind per case
+        kind = rng.choice(["signal", "dsignal", "state", "state", "state_pair", "state_mix"])
+        if kind == "state_mix" and L == 1:
+            kind = "state_pair"
+        for _ in range(rng.randint(1, 2)):
+            lb, ub = ocpgen.rnd(rng, -3, -0.5), ocpgen.rnd(rng, 0.5, 3)
+            r_ = rng.random()
+            if r_ < 0.25:
+                lb = None
+            elif r_ < 0.5:
+                ub = None
+            cons.append({"kind": kind, "alpha": rng.choice([1.0, ocpgen.rnd(rng, 0.3, 2), -ocpgen.rnd(rng, 0.3, 2)]),
+                         "beta": rng.choice([0.0, ocpgen.rnd(rng, -1, 1), ocpgen.rnd(rng, -1, 1)]), "lb": lb, "ub": ub,
+                         "level": rng.randrange(L), "gamma": rng.choice([1.0, -1.0, ocpgen.rnd(rng, 0.3, 2)])})
+            if kind == "state_mix":
+                cons[-1]["level2"] = rng.choice([j for j in range(L) if j != cons[-1]["level"]])
+        cases.append({"part": "E", "N": rng.choice([1, 2, 3, 4, 5]), "len": L, "order": rng.choice([1, 2, 3, 4]),
+                      "grid": ocpgen.gen_grid(rng, ["uniform", "uniform", "geometric", "function"], 3), "cons": cons,
+                      "t0": ocpgen.rnd(rng, -1, 1, 2), "T": ocpgen.rnd(rng, 0.4, 3, 2), "refine": 4,
+                      "seed": rng.getrandbits(32)})
     nd = 10 if tier == "quick" else 120
     for i in range(nd):
         cases.append({"part": "D", "N": rng.choice([4, 6, 8]), "len": rng.choice([2, 3]), "T": ocpgen.rnd(rng, 0.8, 2.5, 2),
@@ -552,5 +577,142 @@ def run_D(case):
     return res
 
 
+# ------------------------------------------------------------------------------------------------ part E
+def build_inf_ocp(case):
+    import casadi as ca
+    import rockit
+    from ..gen import build
+    ocp = rockit.Ocp(t0=case["t0"], T=case["T"])
+    L = case["len"]
+    chain = [ocp.state() for _ in range(L - 1)] + [ocp.control()]
+    for j in range(L - 1):
+        ocp.set_der(chain[j], chain[j + 1])
+    chain2 = [ocp.state() for _ in range(L - 1)] + [ocp.control()]      # a second chain of the same length
+    for j in range(L - 1):
+        ocp.set_der(chain2[j], chain2[j + 1])
+    w = ocp.variable(grid="bspline", order=case["order"])
+    exprs = []
+    for c in case["cons"]:
+        if c["kind"] == "signal":
+            e = c["alpha"] * w + c["beta"]
+        elif c["kind"] == "dsignal":
+            e = c["alpha"] * ocp.der(w) + c["beta"]
+        elif c["kind"] == "state_pair":
+            e = c["alpha"] * chain[c["level"]] + c["gamma"] * chain2[c["level"]] + c["beta"]
+        elif c["kind"] == "state_mix":
+            e = c["alpha"] * chain[c["level"]] + c["gamma"] * chain[c["level2"]] + c["beta"]
+        else:
+            e = c["alpha"] * chain[c["level"]] + c["beta"]
+        lb = -ca.inf if c["lb"] is None else c["lb"]
+        ub = ca.inf if c["ub"] is None else c["ub"]
+        if c["lb"] is None:
+            ocp.subject_to(e <= ub, grid="inf")
+        elif c["ub"] is None:
+            ocp.subject_to(e >= lb, grid="inf")
+        else:
+            ocp.subject_to(lb <= (e <= ub), grid="inf")
+        exprs.append(e)
+    ocp.add_objective(ocp.sum(sum(ca.sumsqr(x_) for x_ in chain + chain2) + ca.sumsqr(w), include_last=True))
+    ocp.method(rockit.SplineMethod(N=case["N"], grid=build.make_grid(case["grid"])))
+    ocp.solver("ipopt", {"ipopt.print_level": 0, "print_time": False})
+    return ocp, exprs
+
+
+def run_E(case):
+    """grid='inf' under SplineMethod: the NLP rows must be sufficient for the declared bound at every time.  The whole
+    NLP is linear here, so 'every NLP point satisfying the rows' is decided by linear programmes: the largest /
+    smallest value the refined sample of the constrained expression can take subject to all rows."""
+    import casadi as ca
+    from scipy import optimize
+    from ..obs import nlp
+    N = case["N"]
+    kinds = "+".join(sorted(c["kind"] + ("1" if (c["lb"] is None or c["ub"] is None) else "2") for c in case["cons"]))
+    res = {"sig": "E|N%d|%s|L%d|o%d|%s" % (N, C.grid_tag(case["grid"]), case["len"], case["order"], kinds),
+           "evals": 0, "violations": [], "counters": {"inf_constraints": 0, "lp_solved": 0, "inf_rows": 0, "spline_points": 0}}
+    try:
+        ocp, exprs = C.call("declare", build_inf_ocp, case)
+        view = C.call("transcribe", nlp.NlpView, ocp)
+        outs = [ca.MX(C.call("sample(refine)", ocp.sample, e, grid="control", refine=case["refine"])[1]) for e in exprs]
+        S = ca.Function("s", [view.x, view.p], [ca.vertcat(*[ca.vec(o) for o in outs])])
+        JS = ca.Function("js", [view.x, view.p], [ca.jacobian(ca.vertcat(*[ca.vec(o) for o in outs]), view.x)])
+        JG = ca.Function("jg", [view.x, view.p], [ca.jacobian(view.adv.g, view.x)])
+    except C.RockitRaised as e:
+        if "state_mix" in kinds and e.phase == "transcribe" and "different spline degree" in str(e.exc):
+            # no coefficient-wise certificate exists for such a row: an explicit rejection is the documented outcome
+            res["counters"]["rejected"] = 1
+            res["evals"] += 1
+            res["nontrivial"] = True
+            res["sample"] = {"rejected": str(e.exc)[:120], "cons": case["cons"]}
+            return res
+        res["violations"].append(C.exc_violation(ID, e, "E|" + kinds))
+        return res
+    rng = np.random.default_rng(case["seed"])
+    nx = view.nx
+    z = np.zeros(nx)
+    w1 = rng.standard_normal(nx)
+    E0 = np.array(JS(z, view.p0).full())
+    e0 = np.array(S(z, view.p0)).reshape(-1)
+    G0 = np.array(JG(z, view.p0).full())
+    _, g0, lbg, ubg = view.eval(z)
+    _, g1, _, _ = view.eval(w1)
+    s1 = np.array(S(w1, view.p0)).reshape(-1)
+    if np.max(np.abs(G0 @ w1 + g0 - g1)) > 1e-9 * (1 + np.max(np.abs(g1))) or \
+            np.max(np.abs(E0 @ w1 + e0 - s1)) > 1e-9 * (1 + np.max(np.abs(s1))):
+        res["status"] = "inconclusive"
+        res["note"] = "NLP rows or samples not affine in the decision variables"
+        return res
+    Aub, bub, Aeq, beq = [], [], [], []
+    for r in range(view.ng):
+        if np.isfinite(lbg[r]) and lbg[r] == ubg[r]:
+            Aeq.append(G0[r])
+            beq.append(lbg[r] - g0[r])
+            continue
+        if np.isfinite(ubg[r]):
+            Aub.append(G0[r])
+            bub.append(ubg[r] - g0[r])
+            res["counters"]["inf_rows"] += 1
+        if np.isfinite(lbg[r]):
+            Aub.append(-G0[r])
+            bub.append(-(lbg[r] - g0[r]))
+            res["counters"]["inf_rows"] += 1
+    npts = outs[0].numel()
+    o = 0
+    BOX = 1e3
+    for ci, c in enumerate(case["cons"]):
+        res["counters"]["inf_constraints"] += 1
+        pts = sorted(set([0, npts - 1] + [int(i) for i in rng.integers(0, npts, size=6)]))
+        for sense, bound, name in ((-1.0, c["ub"], "upper"), (1.0, c["lb"], "lower")):
+            if bound is None:
+                continue
+            for i in pts:
+                row = E0[o + i]
+                r = optimize.linprog(sense * row, A_ub=np.array(Aub) if Aub else None, b_ub=np.array(bub) if Aub else None,
+                                     A_eq=np.array(Aeq) if Aeq else None, b_eq=np.array(beq) if Aeq else None,
+                                     bounds=[(-BOX, BOX)] * nx, method="highs")
+                res["counters"]["lp_solved"] += 1
+                res["evals"] += 1
+                if r.status != 0:
+                    continue
+                res["counters"]["spline_points"] += 1
+                val = float(row @ r.x + e0[o + i])
+                excess = (val - bound) if sense < 0 else (bound - val)
+                if excess > 1e-6 * (1 + abs(bound)):
+                    res["violations"].append({
+                        "kind": "inf-not-sufficient", "mech": "C17|E|inf-rows-not-sufficient|%s|%s" % (c["kind"], name),
+                        "detail": "SplineMethod grid='inf' constraint %d (%s, alpha=%g, beta=%g, bounds [%s, %s]): a point "
+                                  "satisfying every NLP row has the constrained expression at refined sample %d of %d equal "
+                                  "to %.6g, beyond the %s bound by %.3g" % (ci, c["kind"], c["alpha"], c["beta"], c["lb"],
+                                                                            c["ub"], i, npts, val, name, excess)})
+                    break
+            if res["violations"]:
+                break
+        if res["violations"]:
+            break
+        o += npts
+    res["nontrivial"] = res["counters"]["spline_points"] > 0
+    res["sample"] = {"N": N, "grid": case["grid"], "cons": case["cons"], "rows": int(view.ng)}
+    return res
+
+
 def run_case(case):
-    return {"A": run_A, "B": run_B, "C": run_C, "D": run_D}[case["part"]](case)
+    return {"A": run_A, "B": run_B, "C": run_C, "D": run_D, "E": run_E}[case["part"]](case)
